@@ -14,7 +14,7 @@
 (*                 open = TRUE: <edge ..> follows data tokens then "/E"    *)
 (*   [t |-> "/E"]                                                          *)
 (*   [t |-> "D",  key |-> "weight" | "alt" | "other" | "none",             *)
-(*                txt |-> "num" | "pad" | "word" | "empty" | "child",      *)
+(*                txt |-> "num" | "pad" | "word" | "empty" | "child" | ... *)
 (*                w |-> weight token]                                      *)
 (*   [t |-> "K",  form |-> "std" | "alt" | "nofor" | "noid" | "othername"] *)
 (*   [t |-> "X"] unknown element, [t |-> "T"] stray text, [t |-> "C"]      *)
@@ -72,6 +72,9 @@ ScanTok(st, tk) ==
          IF tk.txt \in {"childnode", "childedge"} THEN [st EXCEPT !.lenient = TRUE]
          ELSE IF tk.key = "none" \/ tk.key = "other" \/ (tk.key = "alt" /\ st.wkey # "alt") \/ (tk.key = "weight" /\ st.wkey # "weight")
            THEN st                                               \* not the weight key: ignored
+         (* an empty-element tag <data key=.../>: an element without text.  Which weight it gives is not specified,
+            but it is one complete element and everything after it still counts *)
+         ELSE IF tk.txt = "selfclose" THEN [st EXCEPT !.wlenient = TRUE]
          ELSE IF ~st.inEdge THEN [st EXCEPT !.wlenient = TRUE]    \* weight data outside an open edge: unspecified
          ELSE IF tk.txt = "num"
            THEN [st EXCEPT !.edges = [@ EXCEPT ![Len(@)] = [@ EXCEPT !.w = tk.w]]]
